@@ -275,6 +275,8 @@ var trackedFuncs = []tracked{
 	{"wspCheckPermission", "service/wsp/session.go", "Session", "checkPermission", filter{re(`.`), re(`config\.Auth|auth\.Get|ValidatePermission|Username$`), nil}},
 	{"wspOnDescribe", "service/wsp/session.go", "Session", "onDescribe", filter{re(`checkPermission|stream == nil`), re(`checkPermission|GetOrCreate|\.Path$|\.Sdp$`), re(`s\.path|StatusCode`)}},
 	{"wspOnPlay", "service/wsp/session.go", "Session", "onPlay", filter{re(`checkPermission|stream == nil|s\.status|s\.cid`), re(`checkPermission|GetOrCreate|StartConsume`), re(`StatusCode|s\.status`)}},
+	{"wspOnPreprocess", "service/wsp/session.go", "Session", "onPreprocess", filter{re(`Method|continueProcess`), nil, re(`continueProcess|StatusCode`)}},
+	{"wspOnRequest", "service/wsp/session.go", "Session", "onRequest", filter{re(`continueProcess|Method`), re(`onPreprocess|onDescribe|onSetup|onPlay|onPause`), re(`StatusCode`)}},
 	{"wspNewSession", "service/wsp/session.go", "", "newSession", filter{nil, re(`Username$|Path$|NewID|NewSecret`), nil}},
 }
 
